@@ -3,7 +3,7 @@
    io script:   variant faithful|fixa ; fuel <n> ; world <kinds> <links> ; open <n> <r|m> ; walk|node <c> <n1> .. ; close <c>
    io output:   "<result> | io <num_open> <num_iolist> <slots> | adf <maximum_files> <in_use:fd:name:links;..> | fds <ledger size>"
                 or "diverge" when ADFI_close_file runs out of fuel (the C: unbounded recursion)
-   mll script:  variant faithful|fixed ; open <cgiofail|latefail|ok> ; close <fn> <ok|fail>
+   mll script:  variant faithful|fixed ; open <h> <cgiofail|latefail|ok> ; close <h> <ok|fail>   (h = handle label of the harness)
    mll output:  "<open|close> <0|1> | mll <n_open> <n_cgns_files> <cgns_file_size> <file_number_offset> <fn>" *)
 open Model
 open Zutil
@@ -70,6 +70,7 @@ let run_io () =
 
 let run_mll () =
   let v = ref MFaithful and m = ref mll_init in
+  let fns = Array.make 64 0 in         (* as harness/c17_mll.c: handle label -> file number of its last successful open *)
   (try while true do
     let line = input_line stdin in
     let show tag ok fn =
@@ -78,12 +79,18 @@ let run_mll () =
     match words line with
     | [] -> ()
     | ["variant"; x] -> v := (if x = "fixed" then MFixed else MFaithful)
-    | ["open"; oc] ->
+    | ["open"; h; oc] ->
+        let h = int_of_string h in
         let oc = (match oc with "cgiofail" -> OCgioFail | "latefail" -> OLateFail | _ -> OSuccess) in
         let ((m1, _), r) = mstep !v !m [] (MOpen oc) in
-        m := m1; (match r with Some fn -> show "open" true (n2i fn) | None -> show "open" false 0)
-    | ["close"; fn; ok] ->
-        let ((m1, _), r) = mstep !v !m [] (MClose (i2n (max 0 (int_of_string fn)), ok = "ok")) in
+        m := m1;
+        (match r with
+         | Some fn -> if h >= 0 && h < 64 then fns.(h) <- n2i fn; show "open" true (n2i fn)
+         | None -> show "open" false 0)
+    | ["close"; h; ok] ->
+        let h = int_of_string h in
+        let fn = if h >= 0 && h < 64 then fns.(h) else h in
+        let ((m1, _), r) = mstep !v !m [] (MClose (i2n (max 0 fn), ok = "ok")) in
         m := m1; show "close" (r <> None) 0
     | _ -> print_string ("badline " ^ line ^ "\n")
   done with End_of_file -> ())
